@@ -273,6 +273,84 @@ def esc(s):
     return s.replace("&", "&amp;").replace("<", "&lt;").replace(">", "&gt;")
 
 
+XHTML_NS = ' xmlns="http://www.w3.org/1999/xhtml"'
+
+
+def gen_inline_xhtml(rng):
+    """inline XHTML for an Atom 1.0 type="xhtml" construct, as a list of TOP-LEVEL items (markup without namespace declarations); shapes: the single wrapper div
+    (which Atom prescribes and the parser removes), sibling divs with and without element children, a div among other elements, no div at all"""
+    words = ["one", "two", "three", "some text", "x"]
+
+    def inner(depth):
+        r = rng.random()
+        if depth > 2 or r < 0.35:
+            return rng.choice(words)
+        if r < 0.5:
+            return "<br/>"
+        t = rng.choice(["p", "em", "strong", "span", "div", "blockquote", "b"])
+        return "<%s>%s</%s>" % (t, "".join(inner(depth + 1) for _ in range(rng.randint(1, 3))), t)
+
+    def div(with_child):
+        body = "".join(inner(1) for _ in range(rng.randint(1, 3)))
+        if with_child and "<" not in body:
+            body = "<p>%s</p>" % body
+        if not with_child:
+            body = rng.choice(words)
+        return "<div>%s</div>" % body
+    shape = rng.choice(["wrapper", "wrapper", "siblings", "siblings-child-first", "siblings-child-first", "div-then-other", "other-then-div", "no-div", "three-divs"])
+    if shape == "wrapper":
+        return [div(rng.random() < 0.7)], shape
+    if shape == "siblings":
+        return [div(False), div(False)], shape
+    if shape == "siblings-child-first":
+        return [div(True), div(rng.random() < 0.5)], shape
+    if shape == "three-divs":
+        return [div(rng.random() < 0.5), "<p>%s</p>" % rng.choice(words), div(rng.random() < 0.5)], shape
+    if shape == "div-then-other":
+        return [div(True), "<p>%s</p>" % rng.choice(words)], shape
+    if shape == "other-then-div":
+        return ["<p>%s</p>" % rng.choice(words), div(True)], shape
+    return ["<p>%s</p>" % rng.choice(words), "<ul><li>a</li><li>b</li></ul>"], shape
+
+
+def check_inline_xhtml(items, shape, where, loose):
+    """Atom 1.0 inline XHTML through parse(): the value is the markup as written, without the single wrapper div when there is exactly one top-level element and it is a div"""
+    import re
+    import feedparser
+    import feedparser.api as api
+    decl = [re.sub(r"^<([a-z]+)", lambda m: "<" + m.group(1) + XHTML_NS, it, count=1) for it in items]
+    sep = rng_sep = "\n" if shape.endswith("s") else ""
+    body = sep.join(decl)
+    doc = ('<feed xmlns="http://www.w3.org/2005/Atom"><title>t</title><id>urn:x</id><updated>2020-01-01T00:00:00Z</updated><entry><id>urn:x:1</id>%s'
+           '<%s type="xhtml">%s</%s></entry></feed>' % ("" if where == "title" else "<title>e</title>", where, body, where))
+    w = {"markup": doc, "mode": "atom-xhtml", "loose": loose, "fn": "parse-inline", "items": items, "shape": shape, "where": where}
+    saved = api._XML_AVAILABLE
+    try:
+        if loose:
+            api._XML_AVAILABLE = False
+        with warnings.catch_warnings():
+            warnings.simplefilter("ignore")
+            try:
+                r = feedparser.parse(doc.encode("utf-8"), response_headers={"content-location": BASE, "content-type": "application/xml; charset=utf-8"})
+            except Exception:
+                return []
+    finally:
+        api._XML_AVAILABLE = saved
+    if not r.entries or r.bozo:
+        return []
+    e = r.entries[0]
+    val = e["content"][0]["value"] if where == "content" else e.get(where, "")
+    expected = items[0][len("<div>"):-len("</div>")] if (len(items) == 1 and items[0].startswith("<div>")) else sep.join(items)
+    want = strip_edge_ws(token_stream(expected, BASE))
+    got = strip_edge_ws(token_stream(val, BASE, resolved=True))
+    d = first_diff(want, got)
+    if d:
+        i, x, y = d
+        return [Finding(("parse", "inline-xhtml", classify(x, y)), w, "parse() (Atom 1.0 inline XHTML in <%s>, shape %s, %s) altered safe markup at token %d: %r became %r (expected %r, output %r)" % (
+            where, shape, "loose" if loose else "strict", i, x, y, expected[:200], val[:200]), observed=val, expected=expected)]
+    return []
+
+
 def check_parse(markup, mode, loose):
     import feedparser
     import feedparser.api as api
@@ -341,8 +419,15 @@ def search(ctx, focus=None):
         n += 1
         distinct.add((m, mode, loose))
         failures += check_parse(m, mode, loose)
+    for _ in range(ctx.n(250, 5000)):
+        items, shape = gen_inline_xhtml(rng)
+        where = rng.choice(["content", "content", "summary", "title"])
+        n += 1
+        distinct.add((tuple(items), where))
+        failures += check_inline_xhtml(items, shape, where, False)
     return {"evaluations": n, "distinct_nontrivial": len(distinct), "failures": failures,
-            "rule": "trees over the allow-listed HTML / SVG / MathML elements x allow-listed non-URI attributes (random subsets, upper-case names, rel values) x value "
+            "rule": "Atom 1.0 INLINE XHTML constructs (content / summary / title) through parse(): the single wrapper div, sibling divs with and without element children, a div among other elements, no div -- the value is the markup as written minus the one wrapper div; "
+                    "trees over the allow-listed HTML / SVG / MathML elements x allow-listed non-URI attributes (random subsets, upper-case names, rel values) x value "
                     "strings (&amp;, escaped references, quotes, non-ASCII) x text with references; void and non-void elements; nested same-kind svg/math; "
                     "URI-table (element, attribute) pairs x reference forms; both content types; sanitize_html, resolve_relative_uris and parse() (escaped, "
                     "CDATA, RSS description, text/plain) x both back ends; oracle: html5tok token stream of input vs output equal modulo attribute order, "
@@ -351,7 +436,9 @@ def search(ctx, focus=None):
 
 
 def replay(w):
-    if w["fn"] == "parse":
+    if w["fn"] == "parse-inline":
+        fs = check_inline_xhtml(w["items"], w["shape"], w["where"], w["loose"])
+    elif w["fn"] == "parse":
         fs = check_parse(w["markup"], w["mode"], w["loose"])
     else:
         fs = check_direct(w["markup"], w["type"], w["fn"])
